@@ -415,17 +415,21 @@ def rule_strict(program, ctx):
         "(with <= the duplicate deletes its own stored row, the INSERT succeeds, the client gets OK=true and the event is broadcast again); the LMDB scan skips the event's own id",
         floor=1,
     )
+    ci = program.cls("nostr_relay.storage.db:DBStorage")
     ps = program.func("nostr_relay.storage.db:DBStorage.pre_save")
-    from ..lib import expand_aliases
-    cmps = [c for c in ast.walk(ps) if isinstance(c, ast.Compare) and ast.unparse(c.left).endswith(".c.created_at") and "event.created_at" in ast.unparse(c.comparators[0])]
-    if not cmps:
+    seen_pre = False
+    for fn in [f for f in ci.node.body if isinstance(f, (ast.FunctionDef, ast.AsyncFunctionDef))]:
+        # every "older versions of this event" selection/deletion in the write path (pre_save: replaceable kinds; post_save: metadata/contacts)
+        cmps = [c for c in ast.walk(fn) if isinstance(c, ast.Compare) and len(c.ops) == 1 and ast.unparse(c.left).endswith(".c.created_at") and "event.created_at" in ast.unparse(c.comparators[0])]
+        for c in cmps:
+            seen_pre = seen_pre or fn is ps
+            if isinstance(c.ops[0], ast.Lt):
+                ctx.ok(rid, c, f"{fn.name}: candidates strictly older than the incoming event")
+            else:
+                ctx.bad(finding_at(P, rid, c, f"{fn.name}: superseded candidates include events with the same created_at: the incoming event's own row qualifies (a resubmitted replaceable event "
+                                   "deletes its stored row and is inserted, acknowledged and broadcast again; in post_save the row just inserted is deleted after OK=true)"))
+    if not seen_pre:
         ctx.bad(finding_func(P, rid, ps, "pre_save no longer bounds the superseded versions by created_at", text="def pre_save(...) :: older"))
-    for c in cmps:
-        if isinstance(c.ops[0], ast.Lt):
-            ctx.ok(rid, c, "candidates strictly older than the incoming event")
-        else:
-            ctx.bad(finding_at(P, rid, c, "superseded candidates include events with the same created_at: a resubmitted replaceable event deletes its own stored row, is inserted again, "
-                               "acknowledged OK=true instead of duplicate and broadcast a second time"))
 
 
 def run(program, ctx):
@@ -452,6 +456,10 @@ DB = "nostr_relay/storage/db.py"
 KV = "nostr_relay/storage/kv.py"
 
 MUTANTS = [
+    M("c06-presave-le", DB, "                        & (self.EventTable.c.created_at < event.created_at)\n                    )\n                )\n            await self.process_tags",
+      "                        & (self.EventTable.c.created_at <= event.created_at)\n                    )\n                )\n            await self.process_tags", "C06.strict"),
+    M("c06-presave-select-le", DB, "                & (self.EventTable.c.created_at < event.created_at)\n            )\n            result = await conn.execute(query)",
+      "                & (self.EventTable.c.created_at <= event.created_at)\n            )\n            result = await conn.execute(query)", "C06.strict"),
     M("c06-close-stops-writer-early", KV, "            self.writer_queue.put(None)\n            self.writer_thread.join()", "            self.writer_thread.running = False\n            self.writer_queue.put(None)\n            self.writer_thread.join()", "C06.drain"),
     M("c06-insert-own-txn", DB, "                        changed = result.rowcount == 1\n                        await self.post_save(event, connection=conn, changed=changed)\n",
       "                        changed = result.rowcount == 1\n                async with self.db.begin() as conn:\n                    if do_save:\n                        await self.post_save(event, connection=conn, changed=changed)\n", "C06.trace"),
